@@ -504,6 +504,8 @@ Definition step_w (c : cfg) (s : state) (i : nat) (ch : choice) : option (state 
   | WSc1, CW _ =>
       ret (setw (set_sentc (set_pend (set_total s (total s + cont_len)) (pend s + cont_len)) true) i WScF)
           [LR ATot; LW ATot]
+  (* outbufs[-1].append on a buffer that handle_close has closed raises (file-based buffers) *)
+  | WSc1, CWSend _ SErr => if conn s then None else ret (go WScX) []
   | WScF, CW _ => if pend s <=? 0 then ret (go WScRel) [] else None
   | WScF, CWSend _ r =>
       if pend s <=? 0 then None else
